@@ -138,6 +138,33 @@ def judge(probe, text, res, label, own_line_comments=False, cli=False):
             if ev["exit"] == 0 and after != ft:
                 res.violation(["cli-fmt-w-differs-from-library"], {"text": text}, {"file": (after or "")[:400], "lib": ft[:400]})
             res.count("cli-fmt-runs")
+            # the same program written LOOSELY (trailing blanks, blank lines at the end, a wide gap before the first token):
+            # the formatted text is shorter than the file it replaces
+            loose = " " * 30 + text.rstrip("\n") + " " * 50 + "\n" + (" " * 70 + "\n") * 6
+            fl = probe.safe_call({"op": "fmt", "text": loose})
+            if fl.get("ok"):
+                tp.write("g.ucg", loose)
+                ev = core.run_cli(["fmt", "-w", "g.ucg"], tp.root)
+                try:
+                    after = open(tp.path("g.ucg"), "rb").read().decode("utf-8", "replace")
+                except Exception:
+                    after = None
+                if ev["exit"] == 0 and after != fl["text"]:
+                    res.violation(["cli-fmt-w-differs-from-library", "formatted-" + ("shorter" if len(fl["text"].encode("utf-8")) < len(loose.encode("utf-8")) else "not-shorter") + "-than-source"],
+                                  {"text": loose}, {"file_tail": (after or "")[-200:], "lib_tail": fl["text"][-200:], "file_bytes": len((after or "").encode("utf-8")), "lib_bytes": len(fl["text"].encode("utf-8"))})
+                elif ev["exit"] == 0:
+                    res.count("cli-fmt-w-of-loose-source:" + ("shorter" if len(fl["text"].encode("utf-8")) < len(loose.encode("utf-8")) else "not-shorter"))
+                # directory mode rewrites in place as well
+                tp.write("d/h.ucg", loose)
+                ev = core.run_cli(["fmt", "d"], tp.root)
+                try:
+                    after = open(tp.path("d/h.ucg"), "rb").read().decode("utf-8", "replace")
+                except Exception:
+                    after = None
+                if ev["exit"] == 0 and after != fl["text"]:
+                    res.violation(["cli-fmt-directory-differs-from-library"], {"text": loose}, {"file_tail": (after or "")[-200:], "lib_tail": fl["text"][-200:]})
+                elif ev["exit"] == 0:
+                    res.count("cli-fmt-directory-runs")
 
 
 def classify_line(line):
@@ -244,7 +271,7 @@ def task(args):
                 # canonical layout first (no comments): fixed point must hold
                 pr = gen.Printer()
                 pr.program(stmts)
-                judge(probe, gen.join_stmts(pr.toks), res, "gen-canonical", own_line_comments=True, cli=(c % 40 == 0))
+                judge(probe, gen.join_stmts(pr.toks), res, "gen-canonical", own_line_comments=True, cli=(c % 25 == 0))
                 for v in range(3):
                     pr = gen.Printer(rng=r, extra_parens=r.choice([0, 0.05, 0.15]), quote_fields=r.choice([0, 0.3]),
                                      trailing_commas=r.choice([0, 0.5]))
